@@ -103,6 +103,10 @@ def gen_cases(rng, tier):
     d = {"exhaustive_len": ex + 1, "exhaustive_cases": len(cases), "random": nrand, "random_maxlen": maxlen}
     for _ in range(nrand):
         cases.append(random_script(rng, maxlen))
+    # the same histories for a caller whose RawWaker carries a null data pointer ('19 1 | ..')
+    nd = [c.replace("19 |", "19 1 |", 1) for c in cases[::3] if c.startswith("19 |")]
+    d["null_data_waker_cases"] = len(nd)
+    cases += nd
     # operations issued from other threads on wakers retained after the poll returned
     nthr = {"quick": 250, "search": 300}.get(tier, 3000)
     r2 = rng.fork("threads")
@@ -140,6 +144,9 @@ def model_line(l):
     wake counts and clone counts are sums, so the final observation is the same for every interleaving"""
     if l.startswith("105 "):
         return "0 |"
+    if l.startswith("19 "):
+        # '19 1 | H': the caller's RawWaker has a NULL data pointer (its state lives in a static) — which is none of the model's business
+        return "19 |" + l.split("|", 1)[1]
     if not l.startswith("119 "):
         return l
     hdr, body = l.split("|", 1)
